@@ -564,8 +564,14 @@ impl Check {
     pub fn finish(mut self) -> ! {
         let wall = self.start.elapsed().as_secs_f64();
         let mut known_lines = vec![];
+        // one line per listed finding (several observed key variants may match one entry)
+        let mut per_entry: BTreeMap<String, (u64, String, String)> = BTreeMap::new();
         for (k, (n, msg)) in &self.known_seen {
-            let what = self.known.iter().find(|e| key_matches(&e.key, k)).map(|e| e.what.clone()).unwrap_or_default();
+            let (ek, what) = self.known.iter().find(|e| key_matches(&e.key, k)).map(|e| (e.key.clone(), e.what.clone())).unwrap_or((k.clone(), String::new()));
+            let e = per_entry.entry(ek).or_insert((0, msg.clone(), what));
+            e.0 += n;
+        }
+        for (k, (n, msg, what)) in &per_entry {
             println!("KNOWN-FINDING: property={} key={} {} (re-observed {} times; e.g. {})", self.property, k, what, n, truncate(msg, 160));
             known_lines.push(Js::obj(vec![("key", Js::str(k)), ("count", Js::int(*n as i128)), ("example", Js::str(&truncate(msg, 300)))]));
         }
